@@ -22,7 +22,7 @@ def build_registry():
     # contracts that refer to other contracts' clauses are registered last
     from . import c_track
     c_track.register_dispatcher(reg, S)
-    for m in ("c_sections", "c_safety", "c_file"):
+    for m in ("c_sections", "c_safety", "c_file", "c_render"):
         try:
             mod = importlib.import_module(f"contracts.{m}")
         except ModuleNotFoundError as e:
@@ -32,4 +32,6 @@ def build_registry():
         mod.register(reg, S)
     from . import oracles
     oracles.attach(reg)
+    from vlib import native_file
+    native_file.attach(reg)
     return reg
